@@ -559,6 +559,14 @@ func (x *Exec) applyContract(f *Frame, st *State, fn *ssa.Function, c *Contract,
 	for i := 0; i < sig.Results().Len(); i++ {
 		rets = append(rets, x.freshVal(st, sig.Results().At(i).Type(), fmt.Sprintf("%s_r%d", lastName(key), i)))
 	}
+	// a map handed to a function under contract may be updated by it: its content is unknown afterwards
+	for _, a := range args {
+		if mr, ok := a.(*MapRef); ok {
+			if cur, ok := st.mem[mr.Obj].(*Term); ok {
+				st.mem[mr.Obj] = x.freshTerm("callmap", cur.Sort)
+			}
+		}
+	}
 	// pointer params: havoc pointees when contract says "modifies *param"
 	for i, p := range fn.Params {
 		for _, m := range c.Modifies {
